@@ -14,10 +14,11 @@ from lib.pipeline import Finding
 from checks import faults as F
 
 PROP = "C09"
-THEOREMS = {"Proofs.Props.C09": ["MsPack.Szdd.C09_szdd_ledger_restored", "MsPack.Szdd.C09_szdd_nothing_left"]}
+THEOREMS = {"Proofs.Props.C09": ["MsPack.Szdd.C09_szdd_ledger_restored", "MsPack.Szdd.C09_szdd_nothing_left"],
+            "Proofs.Props.C09Kwaj": ["MsPack.Kwaj.C09_kwaj_ledger_restored", "MsPack.Kwaj.C09_kwaj_nothing_left"]}
 LEVEL = "proof"
-ASSUMPTIONS = ["the effect model (lean/MsPack/Szdd/Api.lean over lean/MsPack/Sys.lean) is tied to szddd.c + lzssd.c by replaying every szdd scenario, fault-free and under every enumerated fault, on `mspack-driver --sys` and comparing all result lines and the final ledger line with the harness",
-               "the theorem covers the SZDD decompressor's API (open/extract/decompress/close/destroy incl. lzss_decompress); CAB, CHM, KWAJ and OAB are covered by fault enumeration on the implementation only",
+ASSUMPTIONS = ["the effect models (lean/MsPack/Szdd/Api.lean, lean/MsPack/Kwaj/Api.lean over lean/MsPack/Sys.lean) are tied to szddd.c + lzssd.c + kwajd.c by replaying every szdd and kwaj scenario, fault-free and under every enumerated fault, on `mspack-driver --sys` and comparing all result lines and the final ledger line with the harness (kwaj methods 3 and 4 are answered `unsupported` by the effect-model driver: their bit-level decoders enter the theorem through the frame law)",
+               "the theorems cover the SZDD and KWAJ decompressors' APIs (create/open/extract/decompress/close/destroy incl. lzss_decompress, the KWAJ header allocations and the allocation skeletons of lzh_init/lzh_free, mszipd_init/mszipd_free); KWAJ's LZH and MSZIP decoder bodies are a hypothesis (`Decoders.Lawful`: they only read and write on the two handles they are given); CAB, CHM and OAB are covered by fault enumeration on the implementation only",
                "the instrumented mspack_system of the harness is the reference for 'released exactly once'"]
 RULE = ("scenarios = complete API sessions (open/search/join/extract/fast_find/decompress, then close + destroy) over generated well-formed and malformed archives of all five formats and two fixtures; "
         "for each: the fault-free run plus single faults (kind x call index; write faults as error or short write); non-trivial = a run in which the planned fault actually fired or the fault-free run; "
@@ -77,19 +78,20 @@ def custom_run(ctx, res, cw):
         for f in judge_run(meta, blocks):
             (viol if f.kind == "violation" else mism).append((p, meta, f))
     # correspondence of the effect model the theorems are about: every szdd run, with and without faults
-    szp = [p for p in cw.paths if cw.meta[p].get("kind") == "szdd"]
+    szp = [p for p in cw.paths if cw.meta[p].get("kind") in ("szdd", "kwaj")]
     mout = C.run_tool(os.path.join(C.LEAN, ".lake/build/bin/mspack-driver"), szp, args=("--sys",))
-    agree = 0
+    agree = 0; skipped = 0
     for p in szp:
         a = prof[p][1] if p in prof else out.get(p)
         if a is None: continue
         ai = [F.strip_counters(l) for b in a for l in b if not l.startswith("MONITOR")]
         bm = [l for b in (mout.get(p) or []) for l in b]
+        if any("unsupported" in l for l in bm): skipped += 1; continue
         if ai == bm: agree += 1
         else:
             d = next((f"impl={x!r} model={y!r}" for x, y in zip(ai + ["<none>"] * len(bm), bm + ["<none>"] * len(ai)) if x != y), "?")
-            mism.append((p, cw.meta[p], Finding("mismatch", f"szdd effect model (Szdd/Api.lean) and implementation differ under {cw.meta[p].get('fault', 'no fault')}: {d}")))
-    res.cov["sys_model_runs"] = {"szdd_runs": len(szp), "agree": agree}
+            mism.append((p, cw.meta[p], Finding("mismatch", f"{cw.meta[p].get('kind')} effect model (Szdd/Api.lean, Kwaj/Api.lean) and implementation differ under {cw.meta[p].get('fault', 'no fault')}: {d}")))
+    res.cov["sys_model_runs"] = {"szdd_and_kwaj_runs": len(szp), "agree": agree, "unsupported_by_effect_driver": skipped}
     res.cov["traces_validated_against_impl"] += agree
     res.cov["distinct_nontrivial"] = len(cw.paths)
     res.cov["input_distribution"] = {"scenarios": len(base_paths), "fault_runs_by_kind": dist,
